@@ -487,6 +487,63 @@ pub fn g3_grammar(rng: &mut Rng) -> Vec<u8> {
 
 const ALPHABET: [u8; 9] = [0x00, 0x01, 0x02, b'a', 0x3F, 0x40, 0xC0, 0x0C, 0x0D];
 
+/// G5: label runs laid over one another. A region of 0x3F bytes ("a 63-byte label of '?'"
+/// from whichever byte reading starts) is followed by a tail holding backward pointers,
+/// each two bytes below the previous run's start: every run re-reads the same region at
+/// another alignment. All pointers point strictly backwards; only a per-run limit
+/// ("pointed-to labels end before the run that pointed to them") keeps the decoded name
+/// from growing to runs x region. Parameters are random; so are a few damaged variants.
+pub fn g5_overlap(rng: &mut Rng) -> Vec<u8> {
+    let big = rng.chance(1, 4);
+    let m = 1 + rng.usize(if big { 130 } else { 24 }); // 63-byte labels per run
+    let runs = 2 + rng.usize(31);
+    // runs start at base+62, base+60, ...: the pointers to them (C2 80 ..= C2 BE for base 640)
+    // are valid UTF-8, which matters because they are label content for the other runs
+    let base: usize = 640;
+    let mut p = vec![0u8; 12];
+    p[2] = 0x84;
+    p[7] = 2; // two answers
+    p.extend_from_slice(&[0x00, 0xFF, 0x00, 0x00, 0x01, 0, 0, 0, 120]);
+    let rdata_at = p.len() + 2;
+    let rdlen = (base - rdata_at) + 64 * m + 64;
+    p.extend_from_slice(&(rdlen as u16).to_be_bytes());
+    p.resize(base, 0);
+    p.extend(std::iter::repeat(0x3F).take(64 * m));
+    let mut tail = vec![0u8; 64];
+    for i in 0..runs - 1 {
+        let slot = 62 - 2 * i;
+        let next_start = base + 62 - 2 * (i + 1);
+        tail[slot..slot + 2].copy_from_slice(&(0xC000u16 | next_start as u16).to_be_bytes());
+    }
+    p.extend_from_slice(&tail);
+    // the second answer's owner: a pointer to the first run (sometimes a label first)
+    if rng.chance(1, 5) {
+        p.extend_from_slice(&[1, b'x']);
+    }
+    p.extend_from_slice(&(0xC000u16 | (base + 62) as u16).to_be_bytes());
+    p.extend_from_slice(&[0, 1, 0, 1, 0, 0, 0, 120, 0, 4, 10, 0, 0, 1]);
+    // damaged variants: a flipped byte in the tail or the region
+    if rng.chance(1, 4) {
+        let at = base + rng.usize(64 * m + 64);
+        p[at] = rng.u64() as u8;
+    }
+    p
+}
+
+/// The smallest overlap: two runs sharing two bytes.
+fn g5_minimal() -> Vec<u8> {
+    let mut p = vec![0u8; 12];
+    p[2] = 0x84;
+    p[7] = 2;
+    p.extend_from_slice(&[0x00, 0xFF, 0x00, 0x00, 0x01, 0, 0, 0, 120, 0, 5]);
+    let base = p.len();
+    p.extend_from_slice(&[0x01, 0x01, 0x00]);
+    p.extend_from_slice(&(0xC000u16 | base as u16).to_be_bytes());
+    p.extend_from_slice(&(0xC000u16 | (base + 1) as u16).to_be_bytes());
+    p.extend_from_slice(&[0, 1, 0, 1, 0, 0, 0, 120, 0, 4, 10, 0, 0, 1]);
+    p
+}
+
 fn g4_datagram(header: usize, s: &[u8]) -> Vec<u8> {
     let mut b = vec![0u8; 12];
     match header {
@@ -616,7 +673,8 @@ fn scripted() -> Vec<(&'static str, Vec<u8>)> {
 pub fn run(report: &Report, tier: &Tier) {
     report.set_rule(
         "inputs: G1 uniform random bytes, G2 mutations/truncations/splices of valid packets (W-encoded and crate-encoded), \
-         G3 grammar with hostile counts/RDLENGTH/pointer graphs, G4 every string over a 9-byte name alphabet up to a fixed \
+         G3 grammar with hostile counts/RDLENGTH/pointer graphs, G5 label runs laid over one another and chained by backward pointers \
+         (2..32 runs over 1..130 63-byte labels), G4 every string over a 9-byte name alphabet up to a fixed \
          length after four fixed headers, plus scripted inputs; a case is distinct by (generator, log2 length, decoder outcome class) \
          and non-trivial if it is at least a full header long",
     );
@@ -637,6 +695,18 @@ pub fn run(report: &Report, tier: &Tier) {
     let per_gen: u64 = if thorough { 8_000_000 } else { 600_000 };
     let batch: u64 = 2000;
     let budget = tier.budget_s * 0.5;
+    {
+        let mut l = Local::default();
+        check_input(&g5_minimal(), &mut l, "G5-overlap");
+        report.merge(l);
+        let n: u64 = if thorough { 40_000 } else { 4_000 };
+        run_parallel(report, n / 100, threads(), budget / 6.0, |i, l| {
+            let mut rng = Rng::new(util::mix(seed, 5u64 << 40 | i));
+            for _ in 0..100 {
+                check_input(&g5_overlap(&mut rng), l, "G5-overlap");
+            }
+        });
+    }
     for (gi, name) in ["G1-random", "G2-mutation", "G3-grammar"].iter().enumerate() {
         let name: &'static str = name;
         run_parallel(report, per_gen / batch, threads(), budget / 3.0, |i, l| {
